@@ -42,7 +42,9 @@ def gen_jb(ch, spec):
     cfg, ops = history_sim.gen_jb(ch, spec)
     cfg["diff_kind"] = "jb"
     cfg["seq0"] = ch.randint("cfg", 0, 300, 1)
-    cfg["ts0"] = ch.randint("cfg", 0, 100000, 1)
+    if "ts_zero_step" in cfg:
+        cfg["ts0_wrap"] = cfg["ts0"]       # the origin from which one frame lands on timestamp 0 exactly
+    cfg["ts0"] = ch.randint("cfg", 1, 100000, 1)
     cfg["wrap"] = {"seq": ch.randint("cfg", 0, 400, 3), "ts": ch.randint("cfg", 0, 2000000, 3)}
     return cfg, ops
 
@@ -50,7 +52,7 @@ def gen_jb(ch, spec):
 def wrap_jb(cfg):
     c = copy.deepcopy(cfg)
     c["seq0"] = 65535 - cfg["wrap"]["seq"]
-    c["ts0"] = 0xFFFFFFFF - cfg["wrap"]["ts"]
+    c["ts0"] = cfg.get("ts0_wrap", 0xFFFFFFFF - cfg["wrap"]["ts"])
     return c
 
 
